@@ -126,4 +126,88 @@ theorem src_naive_date_mod_rs_fn_weeks_from : C12_src_naive_date_mod_rs_fn_weeks
 theorem src_naive_isoweek_rs_fn_from_yof : C12_src_naive_isoweek_rs_fn_from_yof =
     ["v1", "i32", "v2", "u32", "v3", "YearFlags", "->", "Self", "v4", "v2", "+", "v3", "isoweek_delta(", "/", "7", "let(", "v1", "v5", "if", "v4", "<", "1", "v6", "YearFlags", "from_year(", "v1", "-", "1", "nisoweeks(", "v1", "-", "1", "v6", "else", "v7", "v3", "nisoweeks(", "if", "v4", ">", "v7", "v1", "+", "1", "1", "else", "v1", "v4", "v8", "YearFlags", "from_year(", "v1", "IsoWeek", "v9", "v1", "<<", "10", "|", "v5", "<<", "4", "as", "i32", "|", "i32", "from(", "v8"] := by decide +kernel
 
+/-- callee src/datetime/mod.rs:fn from_naive_utc_and_offset -/
+theorem callee_src_datetime_mod_rs_fn_from_naive_utc_and_offset : C12_callee_src_datetime_mod_rs_fn_from_naive_utc_and_offset =
+    ["v1", "NaiveDateTime", "v2", "Tz", "Offset", "->", "DateTime", "<", "Tz", ">", "DateTime", "v1", "v2"] := by decide +kernel
+
+/-- callee src/datetime/mod.rs:fn overflowing_naive_local -/
+theorem callee_src_datetime_mod_rs_fn_overflowing_naive_local : C12_callee_src_datetime_mod_rs_fn_overflowing_naive_local =
+    ["&", "self", "->", "NaiveDateTime", "self", "v1", "overflowing_add_offset(", "self", "v2", "fix("] := by decide +kernel
+
+/-- callee src/format/formatting.rs:fn new_with_offset -/
+theorem callee_src_format_formatting_rs_fn_new_with_offset : C12_callee_src_format_formatting_rs_fn_new_with_offset =
+    ["<", "Off", ">", "v1", "Option", "<", "NaiveDate", ">", "v2", "Option", "<", "NaiveTime", ">", "v3", "&", "Off", "v4", "I", "->", "DelayedFormat", "<", "I", ">", "Off", "Offset", "+", "Display", "v5", "v3", "to_string(", "v3", "fix(", "DelayedFormat", "v1", "v2", "v6", "Some(", "v5", "v4", "v7", "default_locale("] := by decide +kernel
+
+/-- callee src/format/formatting.rs:fn write_hundreds -/
+theorem callee_src_format_formatting_rs_fn_write_hundreds : C12_callee_src_format_formatting_rs_fn_write_hundreds =
+    ["v1", "&", "Write", "v2", "u8", "->", "v3", "Result", "if", "v2", ">=", "100", "return", "Err(", "v3", "Error", "v4", "b'0'", "+", "v2", "/", "10", "v5", "b'0'", "+", "v2", "%", "10", "v1", "write_char(", "v4", "as", "char", "?", "v1", "write_char(", "v5", "as", "char"] := by decide +kernel
+
+/-- callee src/format/formatting.rs:fn write_rfc2822 -/
+theorem callee_src_format_formatting_rs_fn_write_rfc2822 : C12_callee_src_format_formatting_rs_fn_write_rfc2822 =
+    ["v1", "&", "Write", "v2", "NaiveDateTime", "v3", "FixedOffset", "->", "v4", "Result", "v5", "v2", "year(", "if!(", "0", "..=", "9999", "contains(", "&", "v5", "return", "Err(", "v4", "Error", "v6", "default_locale(", "v1", "write_str(", "short_weekdays(", "v6", "v2", "weekday(", "num_days_from_sunday(", "as", "usize", "?", "v1", "write_str(", "\", \"", "?", "v7", "v2", "day(", "if", "v7", "<", "10", "v1", "write_char(", "b'0'", "+", "v7", "as", "u8", "as", "char", "?", "else", "write_hundreds(", "v1", "v7", "as", "u8", "?", "v1", "write_char(", "' '", "?", "v1", "write_str(", "short_months(", "v6", "v2", "month0(", "as", "usize", "?", "v1", "write_char(", "' '", "?", "write_hundreds(", "v1", "v5", "/", "100", "as", "u8", "?", "write_hundreds(", "v1", "v5", "%", "100", "as", "u8", "?", "v1", "write_char(", "' '", "?", "let(", "v8", "v9", "v10", "v2", "time(", "hms(", "write_hundreds(", "v1", "v8", "as", "u8", "?", "v1", "write_char(", "':'", "?", "write_hundreds(", "v1", "v9", "as", "u8", "?", "v1", "write_char(", "':'", "?", "v10", "v10", "+", "v2", "nanosecond(", "/", "1000000000", "write_hundreds(", "v1", "v10", "as", "u8", "?", "v1", "write_char(", "' '", "?", "OffsetFormat", "v11", "OffsetPrecision", "Minutes", "v12", "Colons", "None", "v13", "false", "v14", "Pad", "Zero", "format(", "v1", "v3"] := by decide +kernel
+
+/-- callee src/format/formatting.rs:fn write_rfc3339 -/
+theorem callee_src_format_formatting_rs_fn_write_rfc3339 : C12_callee_src_format_formatting_rs_fn_write_rfc3339 =
+    ["v1", "&", "Write", "v2", "NaiveDateTime", "v3", "FixedOffset", "v4", "SecondsFormat", "v5", "bool", "->", "v6", "Result", "v7", "v2", "date(", "year(", "if(", "0", "..=", "9999", "contains(", "&", "v7", "write_hundreds(", "v1", "v7", "/", "100", "as", "u8", "?", "write_hundreds(", "v1", "v7", "%", "100", "as", "u8", "?", "else", "write!(", "v1", "\"{:+05}\"", "v7", "?", "v1", "write_char(", "'-'", "?", "write_hundreds(", "v1", "v2", "date(", "month(", "as", "u8", "?", "v1", "write_char(", "'-'", "?", "write_hundreds(", "v1", "v2", "date(", "day(", "as", "u8", "?", "v1", "write_char(", "'T'", "?", "let(", "v8", "v9", "v10", "v2", "time(", "hms(", "v11", "v2", "nanosecond(", "if", "v11", ">=", "1000000000", "v10", "+=", "1", "v11", "-=", "1000000000", "write_hundreds(", "v1", "v8", "as", "u8", "?", "v1", "write_char(", "':'", "?", "write_hundreds(", "v1", "v9", "as", "u8", "?", "v1", "write_char(", "':'", "?", "v10", "v10", "write_hundreds(", "v1", "v10", "as", "u8", "?", "match", "v4", "SecondsFormat", "Secs", "=>", "SecondsFormat", "Millis", "=>", "write!(", "v1", "\".{:03}\"", "v11", "/", "1000000", "?", "SecondsFormat", "Micros", "=>", "write!(", "v1", "\".{:06}\"", "v11", "/", "1000", "?", "SecondsFormat", "Nanos", "=>", "write!(", "v1", "\".{:09}\"", "v11", "?", "SecondsFormat", "AutoSi", "=>", "if", "v11", "==", "0", "else", "if", "v11", "%", "1000000", "==", "0", "write!(", "v1", "\".{:03}\"", "v11", "/", "1000000", "?", "else", "if", "v11", "%", "1000", "==", "0", "write!(", "v1", "\".{:06}\"", "v11", "/", "1000", "?", "else", "write!(", "v1", "\".{:09}\"", "v11", "?", "SecondsFormat", "__NonExhaustive", "=>", "unreachable!(", "OffsetFormat", "v12", "OffsetPrecision", "Minutes", "v13", "Colons", "Colon", "v14", "v5", "v15", "Pad", "Zero", "format(", "v1", "v3"] := by decide +kernel
+
+/-- callee src/format/mod.rs:fn internal_fixed -/
+theorem callee_src_format_mod_rs_fn_internal_fixed : C12_callee_src_format_mod_rs_fn_internal_fixed =
+    ["v1", "InternalInternal", "->", "Item", "<", ">", "Item", "Fixed(", "Fixed", "Internal(", "InternalFixed", "v1"] := by decide +kernel
+
+/-- callee src/format/mod.rs:fn num -/
+theorem callee_src_format_mod_rs_fn_num : C12_callee_src_format_mod_rs_fn_num =
+    ["v1", "Numeric", "->", "Item", "<", ">", "Item", "Numeric(", "v1", "Pad", "None"] := by decide +kernel
+
+/-- callee src/format/mod.rs:fn num0 -/
+theorem callee_src_format_mod_rs_fn_num0 : C12_callee_src_format_mod_rs_fn_num0 =
+    ["v1", "Numeric", "->", "Item", "<", ">", "Item", "Numeric(", "v1", "Pad", "Zero"] := by decide +kernel
+
+/-- callee src/format/mod.rs:fn nums -/
+theorem callee_src_format_mod_rs_fn_nums : C12_callee_src_format_mod_rs_fn_nums =
+    ["v1", "Numeric", "->", "Item", "<", ">", "Item", "Numeric(", "v1", "Pad", "Space"] := by decide +kernel
+
+/-- callee src/naive/datetime/mod.rs:fn and_utc -/
+theorem callee_src_naive_datetime_mod_rs_fn_and_utc : C12_callee_src_naive_datetime_mod_rs_fn_and_utc =
+    ["&", "self", "->", "DateTime", "<", "Utc", ">", "DateTime", "from_naive_utc_and_offset(", "*", "self", "Utc"] := by decide +kernel
+
+/-- callee src/naive/internals.rs:fn from_year -/
+theorem callee_src_naive_internals_rs_fn_from_year : C12_callee_src_naive_internals_rs_fn_from_year =
+    ["v1", "i32", "->", "YearFlags", "v1", "v1", "rem_euclid(", "400", "YearFlags", "from_year_mod_400(", "v1"] := by decide +kernel
+
+/-- callee src/naive/internals.rs:fn from_year_mod_400 -/
+theorem callee_src_naive_internals_rs_fn_from_year_mod_400 : C12_callee_src_naive_internals_rs_fn_from_year_mod_400 =
+    ["v1", "i32", "->", "YearFlags", "YEAR_TO_FLAGS", "v1", "as", "usize"] := by decide +kernel
+
+/-- callee src/naive/internals.rs:fn isoweek_delta -/
+theorem callee_src_naive_internals_rs_fn_isoweek_delta : C12_callee_src_naive_internals_rs_fn_isoweek_delta =
+    ["&", "self", "->", "u32", "YearFlags(", "v1", "*", "self", "v2", "v1", "&", "7", "as", "u32", "if", "v2", "<", "3", "v2", "+=", "7", "v2"] := by decide +kernel
+
+/-- callee src/naive/internals.rs:fn nisoweeks -/
+theorem callee_src_naive_internals_rs_fn_nisoweeks : C12_callee_src_naive_internals_rs_fn_nisoweeks =
+    ["&", "self", "->", "u32", "YearFlags(", "v1", "*", "self", "52", "+", "1030", ">>", "v1", "as", "usize", "&", "1"] := by decide +kernel
+
+/-- callee src/naive/time/mod.rs:fn hms -/
+theorem callee_src_naive_time_mod_rs_fn_hms : C12_callee_src_naive_time_mod_rs_fn_hms =
+    ["&", "self", "->", "u32", "u32", "u32", "v1", "self", "v2", "%", "60", "v3", "self", "v2", "/", "60", "v4", "v3", "%", "60", "v5", "v3", "/", "60", "v5", "v4", "v1"] := by decide +kernel
+
+/-- callee src/offset/fixed.rs:fn local_minus_utc -/
+theorem callee_src_offset_fixed_rs_fn_local_minus_utc : C12_callee_src_offset_fixed_rs_fn_local_minus_utc =
+    ["&", "self", "->", "i32", "self", "v1"] := by decide +kernel
+
+/-- callee src/traits.rs:fn hour12 -/
+theorem callee_src_traits_rs_fn_hour12 : C12_callee_src_traits_rs_fn_hour12 =
+    ["&", "self", "->", "bool", "u32", "v1", "self", "hour(", "v2", "v1", "%", "12", "if", "v2", "==", "0", "v2", "12", "v1", ">=", "12", "v2"] := by decide +kernel
+
+/-- callee src/weekday.rs:fn days_since -/
+theorem callee_src_weekday_rs_fn_days_since : C12_callee_src_weekday_rs_fn_days_since =
+    ["&", "self", "v1", "Weekday", "->", "u32", "v2", "*", "self", "as", "u32", "v3", "v1", "as", "u32", "if", "v2", "<", "v3", "7", "+", "v2", "-", "v3", "else", "v2", "-", "v3"] := by decide +kernel
+
+/-- callee src/weekday.rs:fn num_days_from_sunday -/
+theorem callee_src_weekday_rs_fn_num_days_from_sunday : C12_callee_src_weekday_rs_fn_num_days_from_sunday =
+    ["&", "self", "->", "u32", "self", "days_since(", "Weekday", "Sun"] := by decide +kernel
+
+/-- callee src/weekday.rs:fn number_from_monday -/
+theorem callee_src_weekday_rs_fn_number_from_monday : C12_callee_src_weekday_rs_fn_number_from_monday =
+    ["&", "self", "->", "u32", "self", "days_since(", "Weekday", "Mon", "+", "1"] := by decide +kernel
+
 end Chrono.Pins.C12
